@@ -5,6 +5,7 @@ import (
 	"crypto/sha256"
 	"fmt"
 	"sync"
+	"time"
 
 	"verif/core/stack"
 )
@@ -31,6 +32,9 @@ type Rec struct {
 	// Gate, when set, makes the first SetShareData call park (tape event "setshare-parked") until it is closed.
 	Gate  <-chan struct{}
 	gated bool
+	// ReturnDelay: how long KeyGen / Sign take to come back once their context has ended (a backend that is in the middle of
+	// a long computation when it is cancelled)
+	ReturnDelay time.Duration
 	// OnMsgGate, when set, makes the first OnMsg call park (tape event "onmsg-parked") until it is closed: a slow handler.
 	OnMsgGate  <-chan struct{}
 	onMsgGated bool
@@ -240,6 +244,7 @@ func (r *Rec) run(ctx context.Context) error {
 
 func (r *Rec) KeyGen(ctx context.Context) ([]byte, error) {
 	if err := r.run(ctx); err != nil {
+		time.Sleep(r.ReturnDelay)
 		return nil, fmt.Errorf("rec keygen: %w", err)
 	}
 	return []byte(fmt.Sprintf("rec:%d", r.Party)), nil
@@ -247,6 +252,7 @@ func (r *Rec) KeyGen(ctx context.Context) ([]byte, error) {
 
 func (r *Rec) Sign(ctx context.Context, digest []byte) ([]byte, error) {
 	if err := r.run(ctx); err != nil {
+		time.Sleep(r.ReturnDelay)
 		return nil, fmt.Errorf("rec sign: %w", err)
 	}
 	h := sha256.Sum256(append([]byte("rec-sig:"), digest...))
